@@ -416,7 +416,7 @@ Qed.
 Lemma all_live_build : forall rs, (forall r, In r rs -> ~ In CNull r) -> all_live (build rs) = rs.
 Proof.
   intros rs H. unfold build. destruct rs as [|r rs]; [reflexivity|]. unfold all_live. cbn [flat_map].
-  rewrite app_nil_r, live_fresh. apply requirk_rows_id. exact H.
+  rewrite app_nil_r, live_fresh. reflexivity.
 Qed.
 
 Lemma build_selected : forall rs, all_selected (build rs).
@@ -601,7 +601,7 @@ Lemma select_bgp_spec_l : forall c ops n tps,
       (map (map render_rcell) (snd (eval_query n (triples st) (Query false (ProjVars cols) (PBgp tps) [] None None)))).
 Proof.
   intros c ops n tps st Hp Hinj. destruct (bgp_engine_spec_l c ops n tps Hp Hinj) as [T [E [C P]]]. fold st in E, P.
-  exists (t_cols T), (all_live (t_chunks T)). unfold run_select, plan_ok. cbn [q_pat q_proj q_order q_offset q_limit].
+  exists (t_cols T), (all_live (t_chunks T)). unfold run_select, plan_ok. cbn [q_pat q_proj q_order q_offset q_limit q_distinct].
   rewrite C. cbn [andb negb]. rewrite E. cbn [bindr sort_tbl]. split; [reflexivity|]. split; [reflexivity|].
   unfold eval_query. cbn [q_pat q_proj q_order q_offset q_limit q_distinct snd eval_pat order_by slice].
   rewrite !map_map. eapply Permutation_trans; [exact P|].
@@ -618,7 +618,7 @@ Lemma count_bgp_spec_l : forall c ops n tps,
   = Done ([count_col], map (map render_rcell) (snd (eval_query n (triples st) (Query false ProjCount (PBgp tps) [] None None)))).
 Proof.
   intros c ops n tps st Hp Hinj. destruct (bgp_engine_spec_l c ops n tps Hp Hinj) as [T [E [C P]]]. fold st in E, P.
-  unfold run_select, plan_ok. cbn [q_pat q_proj q_order q_offset q_limit]. rewrite C. cbn [andb negb]. rewrite E.
+  unfold run_select, plan_ok. cbn [q_pat q_proj q_order q_offset q_limit q_distinct]. rewrite C. cbn [andb negb]. rewrite E.
   cbn [bindr sort_tbl count_tbl t_cols t_chunks]. unfold eval_query. cbn [q_pat q_proj q_order q_offset q_limit snd slice eval_pat map render_rcell].
   rewrite (Permutation_length P), map_length. reflexivity.
 Qed.
@@ -693,14 +693,12 @@ Proof.
   2:{ intros c Hc. apply map_opt_all. intros l Hl. apply pick_strict_pick. intros i Hi.
       destruct (Hrow c l Hc Hl) as [m [_ [-> _]]]. rewrite sol_row_length. apply Hidx. exact Hi. }
   eexists. split; [reflexivity|]. cbn [t_cols t_chunks]. split; [reflexivity|].
-  assert (AL : all_live (map (fun rs => fresh (requirk_rows [] rs)) (map (fun c => map (pick idx) (live c)) (t_chunks T)))
+  assert (AL : all_live (map (fun rs => fresh rs) (map (fun c => map (pick idx) (live c)) (t_chunks T)))
              = map (pick idx) (all_live (t_chunks T))).
   { induction (t_chunks T) as [|c cs IH]; [reflexivity|]. cbn [map].
     assert (E1 : all_live (c :: cs) = live c ++ all_live cs) by reflexivity. rewrite E1, map_app.
     assert (E2 : forall x xs, all_live (x :: xs) = live x ++ all_live xs) by reflexivity. rewrite E2. f_equal.
-    - rewrite live_fresh. apply requirk_rows_id. intros r Hr. apply in_map_iff in Hr. destruct Hr as [l [<- Hl]].
-      destruct (Hrow c l (or_introl eq_refl) Hl) as [m [_ [-> Gm]]]. intro Hc. apply pick_sub in Hc.
-      eapply sol_row_no_null; eassumption.
+    - apply live_fresh.
     - apply IH. intros c' l Hc'. apply Hrow. right. exact Hc'. }
   rewrite AL. destruct I as [_ [P _]]. eapply Permutation_trans; [apply Permutation_map; exact P|].
   rewrite map_map. assert (Em : map (fun m => pick idx (sol_row (t_cols T) m)) A = map (sol_row vs) A).
@@ -726,7 +724,7 @@ Proof.
     [intros tp' Hi; apply Hp; right; exact Hi|exact HS|].
   assert (EC : t_cols T = cols). { cbn [pat_cols bgp_cols] in Hc. unfold scan in C. cbn [t_cols] in C. congruence. }
   destruct (project_tinv n _ T _ vs I) as [T' [EP [CP PP]]]; [rewrite EC; exact Hvs|].
-  exists (all_live (t_chunks T')). unfold run_select, plan_ok. cbn [q_pat q_proj q_order q_offset q_limit].
+  exists (all_live (t_chunks T')). unfold run_select, plan_ok. cbn [q_pat q_proj q_order q_offset q_limit q_distinct].
   rewrite Hc. destruct vs as [|v0 vs0]; [congruence|].
   destruct (resolve_vars_spec cols (v0 :: vs0) Hvs) as [idx [ER _]]. rewrite ER. cbn [andb negb].
   cbn [plan_pat plan_bgp]. rewrite E. cbn [bindr sort_tbl]. rewrite EP. cbn [bindr]. rewrite CP. split; [reflexivity|].
